@@ -180,6 +180,44 @@ def run(ctx):
         R.ob('C15.optional', ('wire type', wt_, 'both directions'), bool(F.trait_impls('Serialize', wt_)) and d_ok,
              '%s implements both Serialize and Deserialize' % wt_, [])
 
+    # ------------------------------------------------------------------ ids and trace contexts are decoded exactly
+    # The types of the trace context either derive Deserialize (their `with =` helper is judged by C15.id) or, if written by hand, build the value they return from
+    # what the deserializer produced and nothing else: no fresh id, constant or default is substituted for any decoded value (zero and all-ones ids included).
+    n_tr = 0
+    for im in F.trait_impls('Deserialize'):
+        sh_ = im.get('self_head') or ''
+        if not (sh_.startswith('trace::') or '::trace::' in sh_) or '::_::' in sh_ or sh_.split('::')[-1].startswith('__'):
+            continue
+        for name_, mid in im['methods']:
+            f_ = F.fns.get(mid)
+            if f_ is None or name_ != 'deserialize':
+                continue
+            n_tr += 1
+            if F.is_derived(f_):
+                continue
+            bad_, seen_ = [], set()
+
+            def leafs(term, depth=0):
+                for r_, p_ in P.root(term):
+                    ru_ = P.unbound(r_)
+                    if ru_ in seen_ or depth > 6:
+                        continue
+                    if ru_[0] == 'agg' and P._agg_rv(ru_)['adt'] not in ('closure', 'coroutine'):
+                        seen_.add(ru_)
+                        rv_ = P._agg_rv(ru_)
+                        for k_ in range(len(rv_.get('ops') or [])):
+                            leafs(P._field(r_, rv_['fields'][k_] if rv_.get('fields') else k_, k_), depth + 1)
+                        continue
+                    if ru_[0] == 'call' and (callee_is(P.call_term(ru_), 'Deserialize::deserialize') or any(x_ in (P.call_term(ru_).get('callee') or '') for x_ in ('serde::de', 'Deserializer::deserialize', 'SeqAccess::next_element', 'MapAccess::next_value'))):
+                        continue
+                    bad_.append(P.describe(r_))
+            leafs(P._field(P._variant(P._local_whole(f_, 0), 'Ok'), 0, 0))
+            R.ob('C15.exact', (sh_.split('::')[-1], 'hand-written decoder returns exactly what was decoded'), not bad_,
+                 'a hand-written Deserialize of a trace-context type builds its result only from the deserializer\'s output: no value (not even zero) is replaced by a fresh or constant one', [f_.loc(f_.d)],
+                 'other sources: %s' % sorted(set(bad_))[:4])
+    if n_tr < 3:
+        raise CannotDecide('Deserialize impls of trace-context types found: %d (floor 3)' % n_tr)
+
     # ------------------------------------------------------------------ every wire type always writes all its fields
     # positional codecs (bincode) have no field names on the wire: a writer that leaves a field out (skip_serializing_if) produces bytes the reader of
     # the same type mis-aligns.  The derived serializers must announce a constant field count and never call skip_field.
